@@ -353,7 +353,28 @@ def rust_atom(a):
 def rust_fields(fs):
     return '&[' + ', '.join('("%s", %s)' % (n, rust_atom(a)) for n, a in fs) + ']'
 
+# ---- the text-field helpers of insim_core/src/string/mod.rs: Wire/Layout.v (write_text, write_aligned_z, read_text) is their
+#      transcription by hand; the translator accepts exactly the source text that was transcribed
+STRING_HELPERS = {
+ 'strip_trailing_nul': (r'pub fn strip_trailing_nul\(input: &\[u8\]\) -> &\[u8\]\s*\{',
+   "if let Some(pos) = input.iter().position(|x| *x == 0) { &input[..pos] } else { input }"),
+ 'binrw_write_codepage_string': (r'pub fn binrw_write_codepage_string<const SIZE: usize>\([^)]*\)\s*->\s*binrw::BinResult<\(\)>\s*\{',
+   "let mut res: Vec<u8> = if raw { input.as_bytes().to_vec() } else { codepages::to_lossy_bytes(input).to_vec() }; if align_to > 1 { let align_to = (align_to as usize) - 1; let round_to = (res.len() + align_to) & !align_to; if round_to != res.len() { res.put_bytes(0, round_to - res.len()); } res.truncate(SIZE); } else { res.truncate(SIZE); let remaining = SIZE - res.len(); if remaining > 0 { res.put_bytes(0, remaining); } } res.write_options(writer, endian, ())?; Ok(())"),
+ 'binrw_write_codepage_string_nul_terminated': (r'pub fn binrw_write_codepage_string_nul_terminated<const SIZE: usize>\([^)]*\)\s*->\s*binrw::BinResult<\(\)>\s*\{',
+   "let mut res = codepages::to_lossy_bytes(input).to_vec(); res.truncate(SIZE - 1); res.push(0); let len = if align_to > 1 { let align_to = (align_to as usize) - 1; ((res.len() + align_to) & !align_to).min(SIZE) } else { SIZE }; res.resize(len, 0); res.write_options(writer, endian, ())?; Ok(())"),
+ 'binrw_parse_codepage_string': (r'pub fn binrw_parse_codepage_string<const SIZE: usize>\(raw: bool\) -> binrw::BinResult<String>\s*\{',
+   "<[u8; SIZE]>::read_options(reader, endian, ()).map(|bytes| { let bytes = strip_trailing_nul(&bytes); if raw { Ok(String::from_utf8_lossy(bytes).to_string()) } else { Ok(codepages::to_lossy_string(bytes).to_string()) } })?"),
+ 'binrw_parse_codepage_string_until_eof': (r'pub fn binrw_parse_codepage_string_until_eof\(raw: bool\) -> binrw::BinResult<String>\s*\{',
+   "until_eof(reader, endian, ()).map(|bytes: Vec<u8>| { let bytes = strip_trailing_nul(&bytes); if raw { Ok(String::from_utf8_lossy(bytes).to_string()) } else { Ok(codepages::to_lossy_string(bytes).to_string()) } })?"),
+}
+def check_string_helpers(repo):
+    src = load(repo + '/insim_core/src/string/mod.rs')
+    for name, (hdr, want) in STRING_HELPERS.items():
+        got = norm_ws(find_block(src, hdr))
+        if got != want: raise TranslateError('text helper %s is no longer the source Wire/Layout.v transcribes: %s' % (name, got[:300]))
+
 def generate(repo):
+    check_string_helpers(repo)
     src = Src(repo); g = Gen(src)
     pk = load(repo + '/insim/src/packet.rs')
     body = find_block(pk, r'pub enum Packet\s*\{')
